@@ -203,6 +203,16 @@ func EndOp() {
 	t.acc = map[string]*access{}
 }
 
+// SyncPoint is inserted before a statement that uses a self-synchronised package-level variable
+// (sync.Map, sync.Pool, atomic.Value, an atomic.AddInt64(&v, ...) call): a preemption point the
+// scheduler may use like a shared access, but never one side of a data race.
+func SyncPoint(v string) {
+	if !rt.active {
+		return
+	}
+	yield(true)
+}
+
 // Access is inserted before every statement that touches a mutable package-level variable.
 func Access(v string, write bool) {
 	if !rt.active {
